@@ -155,6 +155,33 @@ def r4_siblings(chk, bfs, bfsd):
                "yield_bfs and yield_bfsd no longer traverse the same way (they differ beyond the distance component): one of the two was changed alone")
 
 
+def _indexed_by_pattern(gs):
+    """[IDX[M[x]] for x in pattern.atoms] with M the mapping of this iteration and IDX = {atom: index in self.atoms}"""
+    pp = gs.params()[1]
+    from ..canon import Env
+
+    genv = Env(gs.node)
+    ok = False
+    gy = [e for e in walk_no_nested(gs.node) if isinstance(e, ast.Yield)]
+    gl = [l for l in walk_no_nested(gs.node) if isinstance(l, ast.For) and gy and any(x is gy[0] for x in ast.walk(l))]
+    if len(gy) == 1 and len(gl) == 1 and isinstance(gy[0].value, ast.ListComp) and len(gy[0].value.generators) == 1 and isinstance(gl[0].target, ast.Name):
+        lc = gy[0].value
+        g0 = lc.generators[0]
+        mvar = gl[0].target.id
+        it = genv.expand(gl[0].iter)
+        elt = lc.elt
+        # [IDX[M[x]] for x in pattern.atoms] with M the mapping of this iteration and IDX = {atom: index in self.atoms}
+        shape = (isinstance(g0.target, ast.Name) and norm(g0.iter) == f"{pp}.atoms" and not g0.ifs and isinstance(elt, ast.Subscript) and isinstance(elt.slice, ast.Subscript)
+                 and norm(elt.slice.value) == mvar and norm(elt.slice.slice) == g0.target.id and isinstance(elt.value, ast.Name))
+        if shape:
+            idx = genv.single(elt.value.id)
+            okidx = isinstance(idx, ast.DictComp) and len(idx.generators) == 1 and norm(idx.generators[0].iter) == "enumerate(self.atoms)" \
+                and isinstance(idx.generators[0].target, ast.Tuple) and len(idx.generators[0].target.elts) == 2 \
+                and norm(idx.key) == norm(idx.generators[0].target.elts[1]) and norm(idx.value) == norm(idx.generators[0].target.elts[0])
+            ok = okidx and isinstance(it, ast.Call) and norm(it.func) == "self.match" and it.args and norm(it.args[0]) == pp
+    return ok
+
+
 def r5_matcher(chk, conn):
     prog = chk.prog
     m = prog.method(conn, "match")
@@ -196,29 +223,16 @@ def r5_matcher(chk, conn):
         k, v = [norm(x) for x in dc.generators[0].target.elts]
         ok = norm(dc.key) == v and norm(dc.value) == k and norm(dc.generators[0].iter).endswith(".items()")
     chk.decide(ok, "C15.R5", f"{m.key}:mapping-inverted", m.where(ys[0] if ys else None), "yields {pattern atom: target atom}", "the yielded mapping is not the inverse (pattern -> target) of the matcher's {target: pattern}")
-    pp = gs.params()[1]
-    from ..canon import Env
-
-    genv = Env(gs.node)
-    ok = False
-    gy = [e for e in walk_no_nested(gs.node) if isinstance(e, ast.Yield)]
-    gl = [l for l in walk_no_nested(gs.node) if isinstance(l, ast.For) and gy and any(x is gy[0] for x in ast.walk(l))]
-    if len(gy) == 1 and len(gl) == 1 and isinstance(gy[0].value, ast.ListComp) and len(gy[0].value.generators) == 1 and isinstance(gl[0].target, ast.Name):
-        lc = gy[0].value
-        g0 = lc.generators[0]
-        mvar = gl[0].target.id
-        it = genv.expand(gl[0].iter)
-        elt = lc.elt
-        # [IDX[M[x]] for x in pattern.atoms] with M the mapping of this iteration and IDX = {atom: index in self.atoms}
-        shape = (isinstance(g0.target, ast.Name) and norm(g0.iter) == f"{pp}.atoms" and not g0.ifs and isinstance(elt, ast.Subscript) and isinstance(elt.slice, ast.Subscript)
-                 and norm(elt.slice.value) == mvar and norm(elt.slice.slice) == g0.target.id and isinstance(elt.value, ast.Name))
-        if shape:
-            idx = genv.single(elt.value.id)
-            okidx = isinstance(idx, ast.DictComp) and len(idx.generators) == 1 and norm(idx.generators[0].iter) == "enumerate(self.atoms)" \
-                and isinstance(idx.generators[0].target, ast.Tuple) and len(idx.generators[0].target.elts) == 2 \
-                and norm(idx.key) == norm(idx.generators[0].target.elts[1]) and norm(idx.value) == norm(idx.generators[0].target.elts[0])
-            ok = okidx and isinstance(it, ast.Call) and norm(it.func) == "self.match" and it.args and norm(it.args[0]) == pp
+    ok = _indexed_by_pattern(gs)
     chk.decide(ok, "C15.R5", f"{gs.key}:indexed-by-pattern-atoms", gs.where(), "[index in self of mapping[x] for x in pattern.atoms]", "get_substr_indices does not list, in pattern order, the indices of the matched atoms in self")
+    # the ensemble overrides get_substr_indices: same obligation for the sibling
+    ens = prog.cls("molli.chem.ensemble:ConformerEnsemble")
+    ge = prog.method(ens, "get_substr_indices")
+    if ge is not None and ge.cls == ens:
+        chk.analysed(ge)
+        chk.decide(_indexed_by_pattern(ge), "C15.R5", f"{ge.key}:indexed-by-pattern-atoms", ge.where(), "[index in self of mapping[x] for x in pattern.atoms]",
+                   "ConformerEnsemble.get_substr_indices does not list, in pattern order, the indices of the matched atoms: the list follows the matcher's visiting order, "
+                   "so position k is not the image of pattern atom k")
     # the wildcard test is on the pattern side (second argument = G2 node attributes)
     a1, a2 = nm.params()[:2]
     tests = [t for t in walk_no_nested(nm.node) if isinstance(t, ast.If)]
